@@ -112,6 +112,10 @@ Theorem C01_src_copy_bytes_loop : forall written len bs,
   x_copy_bytes_continue written len = negb (len <=? written) /\ x_copy_bytes_request written len bs = N.min (len - written) bs.
 Proof. intros. split; [apply x_copy_bytes_continue_ok|apply x_copy_bytes_request_ok]. Qed.
 
+Theorem C01_src_noprogress_block_size : forall bs,
+  x_config_block_size true bs = U64MAX /\ x_config_block_size false bs = bs.
+Proof. exact x_config_block_size_ok. Qed.
+
 Print Assumptions C01_dest_fresh_after_new.
 Print Assumptions C01_blocks_partition.
 Print Assumptions C01_copy_bytes_exact.
@@ -120,3 +124,4 @@ Print Assumptions C01_parblock_file.
 Print Assumptions C01_parfile_nothing_beyond.
 Print Assumptions C01_src_block_partition.
 Print Assumptions C01_src_copy_bytes_loop.
+Print Assumptions C01_src_noprogress_block_size.
